@@ -1374,3 +1374,29 @@ package process
 //@   callsite[C19] C19.freshContext context.WithCancel#1: arg0 == backgroundCtx()
 //@   callsite[C19] C19.cleanCounters (*process.RuntimeEnvironment).CreateChannelForEachProcess#1: arg0.processCount == 0 && arg0.deadProcessCount == 0 && arg0.debugChannelCounter == 0 && arg0.timeTaken == 0
 //@   callsite[C19] C19.freshChannels (*process.RuntimeEnvironment).CreateChannelForEachProcess#1: arg0.errorChan != nil && born(arg0.errorChan) >= old(allocCounter()) && arg0.heartbeat != nil && born(arg0.heartbeat) >= old(allocCounter())
+
+// C04, setting a run up: every declared provider name gets a channel made for this run (with a control channel exactly
+// in the non-polarised mode), every process body has the declared names replaced by those channels, and every process
+// is started under the interpreter of the chosen mode.
+//@ macro modeKnown(re *RuntimeEnvironment) bool = re.ExecutionVersion == NORMAL_ASYNC || re.ExecutionVersion == NORMAL_SYNC || re.ExecutionVersion == NON_POLARIZED_SYNC
+//@ contract (*RuntimeEnvironment).CreateFreshChannel
+//@   ensures[C04] C04.freshName: result.Ident == ident && !result.IsSelf && (modeKnown(re) ==> result.Channel != nil && born(result.Channel) >= old(allocCounter()))
+//@   ensures[C04] C04.freshControl: ite(re.ExecutionVersion == NON_POLARIZED_SYNC, result.ControlChannel != nil && born(result.ControlChannel) >= old(allocCounter()), result.ControlChannel == nil)
+//@ contract (*RuntimeEnvironment).CreateChannelForEachProcess
+//@   callsite[C04] C04.initChannelFor (*process.RuntimeEnvironment).CreateFreshChannel#1: 0 <= i && i < len(processes) && 0 <= j && j < len(processes[i].Providers) && arg1 == processes[i].Providers[j].Ident
+//@ macro runChannel(n Name, a int) bool = n.Channel != nil && born(n.Channel) >= a && !n.IsSelf
+//@ contract (*RuntimeEnvironment).CreateChannelForEachProcess
+//@   requires[C04] modeKnown(re) && (forall a int :: 0 <= a && a < len(processes) ==> processes[a] != nil)
+//@   ensures[C04] C04.initAllProviders: forall a int, b int :: 0 <= a && a < len(processes) && 0 <= b && b < len(processes[a].Providers) ==> runChannel(processes[a].Providers[b], old(allocCounter()))
+//@   loop[C04] 1 invariant 0 <= i && (forall a int, b int :: 0 <= a && a < i && a < len(processes) && 0 <= b && b < len(processes[a].Providers) ==> runChannel(processes[a].Providers[b], old(allocCounter())))
+//@   loop[C04] 2 invariant 0 <= i && i < len(processes) && 0 <= j && (forall a int, b int :: 0 <= a && a < i && 0 <= b && b < len(processes[a].Providers) ==> runChannel(processes[a].Providers[b], old(allocCounter()))) && (forall b int :: 0 <= b && b < j && b < len(processes[i].Providers) ==> runChannel(processes[i].Providers[b], old(allocCounter())))
+//@ contract (*RuntimeEnvironment).SubstituteNameInitialization
+//@   callsite[C04] C04.initSubst process.Form.Substitute#1: 0 <= i && i < len(processes) && arg0 == processes[i].Body && arg1 == channels[idx2 + 1].old && arg2 == channels[idx2 + 1].new
+//@ contract (*RuntimeEnvironment).StartTransitions
+//@   callsite[C04] C04.startAsync (*process.Process).SpawnThenTransition#1: re.ExecutionVersion == NORMAL_ASYNC && arg0 == processes[idx1 + 1] && arg1 == re
+//@   callsite[C04] C04.startSync (*process.Process).SpawnThenTransition#2: re.ExecutionVersion == NORMAL_SYNC && arg0 == processes[idx1 + 1] && arg1 == re
+//@   callsite[C04] C04.startNP (*process.Process).SpawnThenTransitionNP#1: re.ExecutionVersion == NON_POLARIZED_SYNC && arg0 == processes[idx1 + 1] && arg1 == re
+//@ contract (*Process).SpawnThenTransition
+//@   callsite[C04] C04.spawnLoop (*process.Process).transitionLoop#1: arg0 == process && arg1 == re
+//@ contract (*Process).SpawnThenTransitionNP
+//@   callsite[C04] C04.spawnLoopNP (*process.Process).transitionLoopNP#1: arg0 == process && arg1 == re
